@@ -43,3 +43,72 @@ Definition lex_result_obs (r : lex_result) : text :=
   end.
 
 Definition lex_obs (s : text) : text := lex_result_obs (lex s).
+
+(** * parser channel K2 *)
+From Aplang Require Import Ast ParseImpl.
+
+Definition sb (s : string) : text := string_bytes s.
+Definition span_obs (s : span) : text := dec (fst s) ++ [43] ++ dec (snd s).
+Definition name_obs (s : text) : text := match s with [] => [95] | _ => hex_text s end.
+
+Fixpoint expr_obs (e : expr) : text :=
+  match e with
+  | EGroup e => sb "(g " ++ expr_obs e ++ sb ")"
+  | ENum f => sb "(n " ++ hex64 (float_bits f) ++ sb ")"
+  | EStr s => sb "(s " ++ name_obs s ++ sb ")"
+  | ETrue => sb "T" | EFalse => sb "F" | ENull => sb "N"
+  | EBin op tok l r => sb "(b " ++ sb (binop_name op) ++ [64] ++ span_obs tok ++ sp ++ expr_obs l ++ sp ++ expr_obs r ++ sb ")"
+  | ELog op tok l r => sb "(l " ++ sb (logop_name op) ++ [64] ++ span_obs tok ++ sp ++ expr_obs l ++ sp ++ expr_obs r ++ sb ")"
+  | EUn op tok e => sb "(u " ++ sb (unop_name op) ++ [64] ++ span_obs tok ++ sp ++ expr_obs e ++ sb ")"
+  | ECall name tok lp rp spans args =>
+    sb "(c " ++ name_obs name ++ [64] ++ span_obs tok ++ sp ++ span_obs lp ++ sp ++ span_obs rp ++ sb " ["
+    ++ join sp (map span_obs spans) ++ sb "]" ++ concat (map (fun a => sp ++ expr_obs a) args) ++ sb ")"
+  | EAccess lt lb rb l k =>
+    sb "(a " ++ span_obs lt ++ sp ++ span_obs lb ++ sp ++ span_obs rb ++ sp ++ expr_obs l ++ sp ++ expr_obs k ++ sb ")"
+  | EList lb rb items => sb "(L " ++ span_obs lb ++ sp ++ span_obs rb ++ concat (map (fun a => sp ++ expr_obs a) items) ++ sb ")"
+  | EVar name tok => sb "(v " ++ name_obs name ++ [64] ++ span_obs tok ++ sb ")"
+  | EAssign name tok arrow v => sb "(= " ++ name_obs name ++ [64] ++ span_obs tok ++ sp ++ span_obs arrow ++ sp ++ expr_obs v ++ sb ")"
+  | ESet lt lb rb arrow l i v =>
+    sb "(S " ++ span_obs lt ++ sp ++ span_obs lb ++ sp ++ span_obs rb ++ sp ++ span_obs arrow ++ sp
+    ++ expr_obs l ++ sp ++ expr_obs i ++ sp ++ expr_obs v ++ sb ")"
+  end.
+
+Fixpoint stmt_obs (s : stmt) : text :=
+  match s with
+  | SExpr e => sb "(e " ++ expr_obs e ++ sb ")"
+  | SIf c t e => sb "(if " ++ expr_obs c ++ sp ++ stmt_obs t ++ sp ++ (match e with Some x => stmt_obs x | None => [45] end) ++ sb ")"
+  | SRepeatTimes ct n b => sb "(rt " ++ span_obs ct ++ sp ++ expr_obs n ++ sp ++ stmt_obs b ++ sb ")"
+  | SRepeatUntil c b => sb "(ru " ++ expr_obs c ++ sp ++ stmt_obs b ++ sb ")"
+  | SForEach name it lt l b =>
+    sb "(fe " ++ name_obs name ++ [64] ++ span_obs it ++ sp ++ span_obs lt ++ sp ++ expr_obs l ++ sp ++ stmt_obs b ++ sb ")"
+  | SProc name ex params b =>
+    sb "(p " ++ name_obs name ++ sp ++ (if ex then [49] else [48]) ++ sb " [" ++ join sp (map name_obs params) ++ sb "] " ++ stmt_obs b ++ sb ")"
+  | SBlock ss => sb "(B" ++ concat (map (fun x => sp ++ stmt_obs x) ss) ++ sb ")"
+  | SReturn e => sb "(ret " ++ (match e with Some x => expr_obs x | None => [45] end) ++ sb ")"
+  | SContinue => sb "(cont)"
+  | SBreak => sb "(brk)"
+  | SImport m mt only =>
+    sb "(imp S" ++ hex_text m ++ [64] ++ span_obs mt ++ sp ++
+    (match only with
+     | None => [45]
+     | Some l => sb "[" ++ join sp (map (fun p => 83 :: hex_text (fst p) ++ [64] ++ span_obs (snd p)) l) ++ sb "]"
+     end) ++ sb ")"
+  end.
+
+Definition perror_obs (e : perror) : text :=
+  sb (pcode_name (pe_code e)) ++ [64] ++ join [44] (map label_obs (pe_labels e)).
+
+Definition parse_result_obs (r : parse_result) : text :=
+  match r with
+  | ParseOk p => sb "OK" ++ concat (map (fun s => sp ++ stmt_obs s) p)
+  | ParseErr es => sb "ERR " ++ dec (N.of_nat (length es)) ++ concat (map (fun e => sp ++ perror_obs e) es)
+  | ParsePanic _ => sb "PANIC"
+  | ParseFuel => sb "FUEL"
+  end.
+
+Definition parse_obs (s : text) : text :=
+  match lex s with
+  | LexOk ts => parse_result_obs (parse_tokens ts)
+  | LexErr es => sb "LEX" ++ lex_result_obs (LexErr es)
+  | LexFuel => sb "FUEL"
+  end.
